@@ -1152,6 +1152,10 @@ def r_stackcap(ctx):
             if len(maxes) != 1 or not implies(maxes[0][0], ("eq0", _canon(as_poly(b)))):
                 res.fail(bp, "zero-size-capacity", "zero-sized elements must get capacity usize::MAX (and only they)", span=ctx.span_of(bp))
                 ok = False
+        extra = [e for e in I.all_effects(("ARITH",)) if e["op"] in ("Add", "Sub", "Mul")]
+        if extra:
+            res.fail(bp, "capacity-adjusted", "the capacity is adjusted by %s %s %s after the division" % (extra[0]["a"], extra[0]["op"], extra[0]["b"]), span=span_of_effect(extra[0]))
+            ok = False
         tr = ret_tree(I) or {}
         if not (isinstance(tr.get(("element_layout",)), tuple) and tr[("element_layout",)][:1] == ("alias",) and tr[("element_layout",)][1][0] == ("A", 2)):
             res.fail(bp, "layout", "the storage does not record the requested element layout", span=ctx.span_of(bp))
